@@ -28,7 +28,7 @@ ENGINES = {
     "gomp_fiber_asan": ("engine/gomp_fiber.cpp", ["-O1", "-g", "-fsanitize=address", "-DVS_ASAN"]),
     "gomp_pthread": ("engine/gomp_pthread.cpp", ["-O2", "-g", "-pthread"]),
     "gomp_pthread_tsan": ("engine/gomp_pthread.cpp", ["-O1", "-g", "-pthread", "-fsanitize=thread"]),
-    "gomp_serial":  ("engine/gomp_serial.cpp",  ["-O2", "-g"]),
+    "minimpi":      ("engine/minimpi/minimpi.cpp", ["-O2", "-g"]),
     "heapfill":     ("engine/heapfill.cpp",     ["-O2", "-g"]),
     "heapfill_asan": ("engine/heapfill.cpp",    ["-O1", "-g", "-fsanitize=address,undefined", "-fno-sanitize-recover=undefined"]),
 }
